@@ -35,8 +35,8 @@ func (d *driver) driveRevisions(ntraces, nops int) {
 		fl := func(classes ...string) string { return flaw(rng, 4, classes...) }
 		for op := 0; op < ops && !tr.bad; op++ {
 			if op == renewAt {
-				d.exchange(Act{Op: "BeginRenew", S: 1, Kind: pick(rng, "renew", "refresh", "refreshpartial"), Pf: flaw(rng, 10, pfClasses...), Cf: flaw(rng, 10, "badsig", "stale"), Rf: flaw(rng, 10, "bad"), NA: renewA, NC: renewC},
-					"Round2Renew", flaw(rng, 15, "bad", "other", "replay"), pick(rng, "finish", "finish", "finish", "abort2", "abort1"))
+				d.exchange(Act{Op: "BeginRenew", S: 1, Kind: pick(rng, "renew", "refresh", "refreshpartial"), Pf: flaw(rng, 10, pfClasses...), Cf: flaw(rng, 10, "badsig", "stale"), Rf: flaw(rng, 18, "bad", "poolbad"), NA: renewA, NC: renewC},
+					"Round2Renew", flaw(rng, 25, "bad", "other", "replay", "badinput", "badinput"), pick(rng, "finish", "finish", "finish", "abort2", "abort1"))
 				continue
 			}
 			cur := size()
